@@ -322,7 +322,7 @@ class Effect:
 
 
 class State:
-    __slots__ = ('mem', 'conds', 'effects', 'havoc_roots', 'loopdepth', 'scope', 'loops', 'shadow')
+    __slots__ = ('mem', 'conds', 'effects', 'havoc_roots', 'loopdepth', 'scope', 'loops', 'shadow', 'holders')
 
     def __init__(self):
         self.mem = {}
@@ -333,6 +333,7 @@ class State:
         self.scope = ''
         self.loops = []        # [(loop node, {key: (havoc atom, value before the loop)})]
         self.shadow = {}       # key -> last value before a call clobbered it
+        self.holders = {}      # local object -> locals whose address was seen stored inside it (kept when a call havocs the holder)
 
     def copy(self):
         s = State()
@@ -344,6 +345,7 @@ class State:
         s.scope = self.scope
         s.loops = list(self.loops)
         s.shadow = dict(self.shadow)
+        s.holders = dict(self.holders)
         return s
 
 
@@ -1547,6 +1549,8 @@ class _Activation:
                     self._havoc_keys(act2, es2, keys2, calls2, st, st0, lmap, tag, depth + 1)
                     continue
             for a in c['inner'][1:]:
+                self.clobber_reach(st, a, tag, act=None if own else act, es=None if own else es, pre=st0)
+            for a in c['inner'][1:]:
                 self.clobber_arg(st, a, tag, act=None if own else act, es=None if own else es)
 
     def _bind_helper(self, act, name, call, es):
@@ -1580,8 +1584,16 @@ class _Activation:
             if isinstance(b, tuple) and b[0] == '&':
                 work.append(b)
                 seen.add(b)
+        def found(holder, x):
+            st.holders[holder] = st.holders.get(holder, frozenset()) | {x[1]}
+            if x not in seen:
+                seen.add(x)
+                out.append(x[1])
+                work.append(x)
         while work:
             b = work.pop()
+            for K in st.holders.get(b[1], ()):        # seen stored there before a call havocked the holder
+                found(b[1], ('&', K))
             for kk, val in list(st.mem.items()):
                 if not (kk == b[1] or rooted_at(kk, b)):
                     continue
@@ -1595,10 +1607,8 @@ class _Activation:
                         r = x[1]
                         while isinstance(r, tuple) and r[0] in ('f', 'i', '&'):
                             r = r[1]
-                        if isinstance(r, tuple) and r[0] == 'v' and x not in seen:
-                            seen.add(x)
-                            out.append(x[1])
-                            work.append(x)
+                        if isinstance(r, tuple) and r[0] == 'v':
+                            found(b[1], x)
                         continue
                     stk.extend(y for y in (x if isinstance(x[0], tuple) else x[1:]) if isinstance(y, tuple))
         return out
@@ -1617,6 +1627,25 @@ class _Activation:
             return
         for _, v in alts:
             self.clobber_term(st, v, tag)
+
+    def clobber_reach(self, st, argnode, tag, act=None, es=None, pre=None):
+        """loop pre-scan: locals whose address is stored inside what a pointer argument of a call in the loop leads to -
+        looked up in the state before the loop as well (the holder itself may have been havocked by now)"""
+        qt = cast.qual_type(argnode)
+        if '*' not in qt and '[' not in qt:
+            return
+        try:
+            alts = (act or self).eval(argnode, (es if es is not None else st).copy(), side_effects=False)
+        except Unsupported:
+            return
+        vals = [v for _, v in alts]
+        ks = self.reachable_locals(st, vals)
+        if pre is not None:
+            ks += [K for K in self.reachable_locals(pre, vals) if K not in ks]
+            for h, v in pre.holders.items():
+                st.holders[h] = st.holders.get(h, frozenset()) | v
+        for K in ks:
+            self.clobber_term(st, ('&', K), tag)
 
     def clobber_term(self, st, v, tag):
         if v[0] == 'c':
@@ -2388,7 +2417,7 @@ class _Activation:
             if name not in PURE_FUNCTIONS and name not in self.e.pure and not (name and self.e.is_pure(name)):
                 # a local whose address the caller has stored inside an object handed to the callee (a driver's context
                 # in a Source / Sink, a buffer in a sink) may be written by the callee through that stored address
-                reach = self.reachable_locals(s, vals)
+                reach = self.reachable_locals(s2, vals)       # s2 is still the state before the call; the holders found are kept in it
                 for K in reach + [v_[1] for v_ in vals if isinstance(v_, tuple) and v_[0] == '&' and isinstance(v_[1], tuple) and v_[1][0] == 'v']:
                     ef.pointees[K] = self.whole_struct(s, K)
                 for K in reach:
